@@ -79,7 +79,10 @@ def step (st : St) : List String → St × String
       if s = 0 then (st, "bad-op") else
       if vals.length ≠ fineSize s dims then (st, "err value") else
       match stat with
-      | "sum" => (st, "ok " ++ showRatList (binND s dims vals))
+      | "sum" =>
+        match binSum? s dims vals with
+        | some r => (st, "ok " ++ showRatList r)
+        | none => (st, "err value")
       | "mean" => (st, "ok " ++ showRatList (binMean s dims vals))
       | _ => (st, "bad-op")
     | _, _, _ => (st, "bad-op")
